@@ -5,6 +5,7 @@ package yang
 // hLoad parses the given module texts into a fresh module set (Modules.Parse: lexer, parser,
 // AST builder, registration) and returns the set and the load errors.
 func hLoad(texts ...string) (*Modules, []error) {
+	hNoFiles()
 	ms := NewModules()
 	var errs []error
 	for i, t := range texts {
@@ -14,6 +15,19 @@ func hLoad(texts ...string) (*Modules, []error) {
 	}
 	return ms, errs
 }
+
+// hNoFiles makes the loader's file access (the package's own seams readFile/scanDir) answer
+// "no such file": nothing is ever fetched from the real file system by a harness.
+func hNoFiles() {
+	readFile = func(string) ([]byte, error) { return nil, errNoFile }
+	scanDir = func(string, string, bool) string { return "" }
+}
+
+var errNoFile = errorString("no such file")
+
+type errorString string
+
+func (e errorString) Error() string { return string(e) }
 
 // HTB: smoke test of the whole pipeline on a concrete module.
 func HTB() {
